@@ -285,6 +285,11 @@ func c14W1(c *Ctx, i int, r *rand.Rand, modeB bool) {
 			}
 		case 4:
 			hostileCompressedResponse(r, s.Script, pick(r, []string{"corrupt", "bomb"}), int(s.Cfg.Limit))
+		case 5:
+			s.Script.BadEnd = pick(r, []string{"garbage", "empty", "corrupt"})
+			if s.Script.BadEnd == "corrupt" {
+				s.Script.Comp, s.Script.CompressEnd = "gzip", true
+			}
 		}
 		rpcs = append(rpcs, p)
 	}
@@ -582,7 +587,12 @@ func c14W3(c *Ctx, i int, r *rand.Rand) {
 		s.Cfg = &cfg
 		cfg.Limit = 256 << 10
 		var eo execOpts
-		switch r.IntN(6) {
+		switch r.IntN(7) {
+		case 6:
+			s.Script.BadEnd = pick(r, []string{"garbage", "empty", "corrupt"})
+			if s.Script.BadEnd == "corrupt" || chance(r, 30) {
+				s.Script.Comp, s.Script.CompressEnd = "gzip", true
+			}
 		case 0, 1, 2:
 			// a small limit and a handler that writes in pieces: the limit trips after part of a body was taken
 			cfg.Limit = pick(r, []uint32{24, 48, 200, 1000})
@@ -596,8 +606,16 @@ func c14W3(c *Ctx, i int, r *rand.Rand) {
 		case 4:
 			hostileCompressedResponse(r, s.Script, pick(r, []string{"corrupt", "bomb"}), int(cfg.Limit))
 		case 5:
-			s.Script.CutAt = 1 + r.IntN(40)
-			s.Script.EndAfterCut = chance(r, 50)
+			if chance(r, 50) {
+				s.Script.CutAt = 1 + r.IntN(40)
+				s.Script.EndAfterCut = chance(r, 50)
+			} else {
+				// an end-of-stream frame the transcoder cannot make sense of
+				s.Script.BadEnd = pick(r, []string{"garbage", "empty", "corrupt"})
+				if s.Script.BadEnd == "corrupt" || chance(r, 30) {
+					s.Script.Comp, s.Script.CompressEnd = "gzip", true
+				}
+			}
 		}
 		// many small fields: any prefix that ends at a field boundary is itself a valid message
 		for j := range s.Script.Msgs {
